@@ -13,6 +13,7 @@ static GLOBAL: engine::CountingAlloc = engine::CountingAlloc;
 
 fn main() {
     engine::install_panic_hook();
+    engine::maybe_install_trace_subscriber();
     let args: Vec<String> = std::env::args().collect();
     if args.len() < 3 {
         eprintln!("usage: vp <ID> <quick|thorough> | vp <ID> --replay <file>");
